@@ -5,13 +5,14 @@ package main
 // gtab.VerifReadGsubSubtable(data, pos, 6).
 //
 // V lines `tmchainctx.read bytes=<hex> pos=<n>` print the outcome class (err:io | err:invalid |
-// err:unsupported | panic | skip) or "ok:" and the decoded subtable in canonical form:
+// err:unsupported | panic) or "ok:" and the decoded subtable in canonical form:
 //   c1|<coverage runs s-e:i>|<rule sets>
 //   c2|<coverage>|<backtrack classes s-e:c>|<input classes>|<lookahead classes>|<rule sets>
 //   c3|<backtrack sets>|<input sets>|<lookahead sets>|<actions>
 // rule sets are joined by ';' ('-' = nil, '=' = no rules), rules by '/', a rule is
 // b<list>i<list>l<list>a<list>, a list is its numbers joined by '.', or #<len>~<hash> beyond 32
-// entries.  `skip`: the uint16 key 10*6+format wrapped to a reader outside this group.
+// entries.  Format words whose uint16 key 10*6+format used to be the key of another reader (11, 21,
+// 0xFFCF …: finding C02-dispatch-key) are refused since the repair of gsub.go:42: err:invalid.
 
 import (
 	"sort"
@@ -194,9 +195,6 @@ func totalChainctxShowSub(st gtab.Subtable) string {
 	}
 	return "other"
 }
-
-// totalChainctxOtherKeys: keys of gsubReaders outside this group (gsub.go:52-66).
-var totalChainctxOtherKeys = map[int]bool{11: true, 12: true, 21: true, 31: true, 41: true, 51: true, 52: true, 53: true, 71: true, 81: true}
 
 func totalChainctxClass(out string) string {
 	if strings.HasPrefix(out, "ok:") {
@@ -533,7 +531,8 @@ func totalChainctxStructured(r *Rng) []totalChainctxTab {
 	}
 	add("f3-noacts", totalChainctxBuild3(nil, [][]byte{cvA}, nil, nil, false))
 	add("f3-unsorted-set", totalChainctxBuild3(nil, [][]byte{totalChainctxCov([]int{9, 3, 3})}, nil, nil, false))
-	// unknown formats, and a format word whose key wraps into another reader
+	// unknown formats, and the format words whose key used to collide with / wrap into another
+	// reader's key (now err:invalid on both sides)
 	add("fmt0", totalChainctxW(0, 1, 2, 3))
 	add("fmt4", totalChainctxW(4, 1, 2, 3))
 	add("fmt-wrap-1_1", totalChainctxW(0xffcf, 6, 1, 1, 1, 5))
@@ -543,6 +542,11 @@ func totalChainctxStructured(r *Rng) []totalChainctxTab {
 	add("fmt-collide-7_1", totalChainctxW(11, 6, 0, 0, 8, 0, 1, 0))
 	add("fmt-collide-8_1", totalChainctxW(21, 10, 0, 0, 0, 1, 1, 5))
 	add("fmt-10", totalChainctxW(10, 6, 0, 0, 8, 0, 1, 0))
+	add("fmt-9", totalChainctxW(9, 6, 0, 0, 8, 0, 1, 0))
+	add("fmt-wrap-65497", totalChainctxW(65497, 6, 1, 1, 1, 5))
+	for _, k := range []int{12, 21, 31, 41, 51, 52, 53, 71, 81} {
+		add("fmt-wrap-key", totalChainctxW((k-60+65536)&0xffff, 6, 1, 1, 1, 5))
+	}
 	// size caps of formats 1 and 2: a rule set beyond 0xFFFF through aliased rules
 	big := R(make([]int, 900), nil, nil, nil)
 	bigSet := make([]totalChainctxRule, 40)
@@ -610,12 +614,6 @@ func init() {
 			if pos < 0 {
 				return "bad-case"
 			}
-			if pos+2 <= len(b) {
-				key := (60 + (int(b[pos])<<8 | int(b[pos+1]))) & 0xffff
-				if totalChainctxOtherKeys[key] {
-					return "skip"
-				}
-			}
 			st, err := gtab.VerifReadGsubSubtable(b, int64(pos), 6)
 			if err != nil {
 				return totalErrClass(err)
@@ -638,9 +636,6 @@ func totalChainctxHeavy(b []byte, pos, limit int) (heavy bool) {
 		}
 	}()
 	if pos < 0 || pos+2 > len(b) {
-		return false
-	}
-	if totalChainctxOtherKeys[(60+(int(b[pos])<<8|int(b[pos+1])))&0xffff] {
 		return false
 	}
 	st, err := gtab.VerifReadGsubSubtable(b, int64(pos), 6)
